@@ -36,7 +36,7 @@ import (
 // worker (a goroutine inside WorkQueue.process) is blocked too: in Get (sync.Cond.Wait) or in
 // the harness callback (select / chan receive).
 func settle() bool {
-	buf := make([]byte, 1<<20)
+	buf := stackBuf
 	for i := 0; i < 300000; i++ {
 		n := runtime.Stack(buf, true)
 		loops, ok := 0, true
